@@ -6,58 +6,53 @@
    methods that decide what goes through the indenting writer and what bypasses it).  Both are tied to js/ast.go and
    util.go by correspondence runs; the parser is the model of C03 ([parse]). *)
 From Verif Require Import Common.Base Gen.PrattTable JsExpr.Syntax JsExpr.Pratt JsExpr.Spec JsExpr.Grammar
-  JsPrint.Print JsPrint.Proofs JsPrint.Glue JsPrint.Indent JsPrint.IndentProofs JsPrint.LexBack JsPrint.Separated.
+  JsPrint.Print JsPrint.Proofs JsPrint.Glue JsPrint.Indent JsPrint.IndentProofs JsPrint.LexBack JsPrint.Separated JsPrint.Names.
 From Verif Require Common.Lx JsLex.Model JsLex.Proofs.
 
-(* Print the tree of any accepted token list and read the written tokens again ([ptoks]: the items without the
-   spaces): they are accepted, the tree is the original one with a GroupExpr around each numeric literal that stands
-   before '.' ([ng]) — the same tree modulo GroupExpr nodes — and printing that tree gives the same bytes.
-   Partial: this is the parser half — the tokens are the ones the printer writes; that the written BYTES lex back to
-   exactly these tokens is print_round_trip_partial below (through the C06 lexer model, for the outputs its
-   token-sequence theorem covers), and is checked for everything by the round-trip oracle and the byte-for-byte
-   correspondence of [print_js] with JS(). *)
-Theorem print_retokenises_partial :
+(* The parser half, at the level of tokens and without any hypothesis: print the tree of any accepted token list and read
+   the written tokens again ([ptoks]: the items without the spaces): they are accepted, the tree is the original one with
+   a GroupExpr around each numeric literal that stands before '.' ([ng]) — the same tree modulo GroupExpr — and printing
+   that tree gives the same bytes.  (That the written BYTES lex to these tokens is print_round_trip below.) *)
+Theorem print_reparses :
   forall inf ts t, parse inf prec_OpExpr ts = Ok (t, []) ->
     parse inf prec_OpExpr (ptoks (pitems t)) = Ok (ng t, []) /\
     strip_groups (ng t) = strip_groups t /\
     print_js (ng t) = print_js t.
 Proof. exact print_reparses_proof. Qed.
-Print Assumptions print_retokenises_partial.
+Print Assumptions print_reparses.
 
 (* The full round trip of the fragment, through the JS lexer model of C06 (JsLex/Model.v; jrun: a sequence of Next calls):
    print the tree of any accepted token list, run the lexer on the BYTES with one Next call per written item; it returns
-   exactly the written items as tokens ([tok_of_item]: the printer's tokens and one WhitespaceToken per space) and stops
-   at the end of the input; what the parser sees of them ([lexed_view]: whitespace dropped, no line terminators) is
-   accepted again, with the original tree modulo GroupExpr, and that tree prints to the same bytes:
-   parse (lex (print t)) = t modulo GroupExpr, print of it = the same bytes.
-   Built on C06's jslex_token_sequences (exact follower condition [stops]) and on JsPrint/Separated.v, which shows that
-   the printer's spacing rules (spaces around binary operators, ? and :, `+ +a` / `- --a`, parentheses around a decimal
-   literal before '.', no space otherwise) satisfy that condition at every token boundary of every grammatical tree.
+   exactly the written items as tokens ([litems]: the printer's tokens, a name after '.' under the type the lexer's
+   keyword table gives it, and one WhitespaceToken per space) and stops at the end of the input; what the parser sees of
+   them ([lexed_view]: whitespace dropped, no line terminators) is accepted again, with the original tree modulo GroupExpr,
+   and that tree prints to the same bytes:   parse (lex (print t)) = t modulo GroupExpr,  print of it = the same bytes.
+   Built on C06's jslex_token_sequences (exact follower condition [stops]), on JsPrint/Separated.v (the printer's spacing
+   rules satisfy that condition at every token boundary of every grammatical tree) and on JsPrint/Names.v (reserved words
+   as property names: `a.if` is written as it is read).
    The hypotheses are about the LEAF tokens of the input only (the model's tokens carry arbitrary bytes):
-     leaf_tokens_real: every written token that is not a punctuator / keyword of the fragment with its canonical bytes
+     leaf_tokens_lex: every written token that is not a punctuator / keyword of the fragment with its canonical bytes
        (identifiers, numeric and string literals, property names) is a token of the lexer — lexed alone it is that token
        ([relexes]), of class identifier / numeric / string, no truncated UTF-8 sequence at its end, not beginning with a
        white space rune;
      leaf_tokens_lead (computable): it begins the way its class begins (identifier: letter, '$', '_', '\' or a non-ASCII
        byte; numeric: digit or '.', and a binary / octal / hex literal contains a non-digit; string: a quote) and its type
        is one the parser and the lexer model classify alike.
-   PARTIAL, MISSING: a property name that is a reserved word (`a.if`: the printer's token is an IdentifierToken, the lexer
-   returns the keyword type, so leaf_tokens_real fails; the parser accepts both).  (RegExp literals are outside the
-   fragment of the parser model.)  LexBack.v / Separated.v have an instance (print_lex_parse_example,
-   round_trip_example_lead). *)
-Theorem print_round_trip_partial :
+   (RegExp literals are outside the fragment of the parser model.)  Instances: print_lex_parse_example (LexBack.v),
+   round_trip_reserved_name (Names.v). *)
+Theorem print_round_trip :
   forall (ids idc zs : Z -> bool) inf ts t,
-    parse inf prec_OpExpr ts = Ok (t, []) -> leaf_tokens_real ids idc zs t -> leaf_tokens_lead t = true ->
+    parse inf prec_OpExpr ts = Ok (t, []) -> leaf_tokens_lex ids idc zs t -> leaf_tokens_lead t = true ->
     exists toks s',
-      JsLex.Proofs.jrun ids idc zs (map (fun _ : pitem => JsLex.Proofs.ONext) (pitems t)) (JsLex.Model.js_init (print_js t))
+      JsLex.Proofs.jrun ids idc zs (map (fun _ : pitem => JsLex.Proofs.ONext) (litems t)) (JsLex.Model.js_init (print_js t))
         = JsLex.Model.Ok (toks, s') /\
       Common.Lx.at_end (JsLex.Model.jcur s') = true /\
-      toks = map tok_of_item (pitems t) /\
+      toks = map tok_of_item (litems t) /\
       parse inf prec_OpExpr (lexed_view toks) = Ok (ng t, []) /\
       strip_groups (ng t) = strip_groups t /\
       print_js (ng t) = print_js t.
-Proof. exact print_round_trip_proof. Qed.
-Print Assumptions print_round_trip_partial.
+Proof. exact print_round_trip_proof2. Qed.
+Print Assumptions print_round_trip.
 
 (* The spacing half on its own: the item list the printer writes for any accepted token list passes the byte-level
    separation check (C06's [stops] at every token boundary), given only how the leaves begin. *)
